@@ -252,14 +252,11 @@ def build(case):
     desc.__name__ = "desc"
     d = tawazi.dag(desc, max_concurrency=rc["pre_maxc"] if rc else case["maxc"], is_async=case["is_async"])
     if rc and rc.get("call_first") and not case.get("setup"):
-        try:
-            if case["is_async"]:
-                import asyncio
-                asyncio.run(d())
-            else:
-                d()
-        except BaseException:  # noqa: BLE001
-            pass
+        # (under a free-running controller: its watchdog ends a call that hangs or spins, and the hang is a finding)
+        ctl0 = tz.Ctl(free_run=True)
+        st0 = tz.run_controlled(lambda: d(), ctl0, is_async=case["is_async"])
+        if st0[0] == "hang" or (ctl0.broken and "spin" in str(ctl0.broken)):
+            raise tz.HarnessBroken("the call made before the reconfiguration did not return: %s" % (ctl0.broken,))
     if rc:
         for st in rc["steps"]:
             if "assign_max_concurrency" in st:
